@@ -126,7 +126,7 @@ def decl_module(d, ops_wanted):
     lines.append(d.extra_items)
     lines.append(struct)
     if getattr(d, "no_run", False):
-        lines.append('    pub fn run(op: &str, arg: &str) -> String { "na".to_string() }')
+        lines.append('    pub fn run(op: &str, arg: &str) -> ::std::string::String { ::std::string::String::from("na") }')
         lines.append("}")
         return "\n".join(lines)
     lines.append("    type Inner = %s;" % inner_c)
